@@ -273,13 +273,17 @@ theorem ris_inv {e : Emu} {rows cols : Nat} (h : EmuInv e rows cols) (d : Dim ro
   have hh := height_eq h
   have hw := width_eq h d.r1
   have := h.topLo; have := h.topLe; have := h.botHi; have := d.r1; have := d.c1
-  unfold ris
-  simp only [hh, hw, Int.toNat_natCast]
+  have hf : Fixes.current.f106e = true := rfl
+  unfold ris risF
+  simp only [hh, hw, Int.toNat_natCast, hf, if_true]
   exact { h with prim := blankGrid_ok cols rows, alt := blankGrid_ok cols rows,
                  rowLo := by simp only; omega, rowHi := by simp only; omega,
                  colLo := by simp only; omega, colHi := by simp only; omega,
+                 topLo := by simp only; omega,
                  topLe := by simp only; omega, botHi := by simp only; omega,
-                 right := rfl, tabs := defaultTabs_nonneg }
+                 right := rfl, tabs := defaultTabs_nonneg,
+                 savedP := ⟨Int.le_refl 0, by simp only; omega, Int.le_refl 0, by simp only; omega⟩,
+                 savedA := ⟨Int.le_refl 0, by simp only; omega, Int.le_refl 0, by simp only; omega⟩ }
 
 /-! ### SGR -/
 
